@@ -28,7 +28,11 @@ inline void verif_bump( const char* cur, std::size_t n, const char* end ) noexce
 #define TAO_PEGTL_VERIF_BUMP( c, n, e ) ::verif_bump( c, n, e )
 
 #include <tao/pegtl.hpp>
+#include <tao/pegtl/contrib/check_bytes.hpp>
 #include <tao/pegtl/contrib/if_then.hpp>
+#include <tao/pegtl/contrib/input_with_depth.hpp>
+#include <tao/pegtl/contrib/limit_bytes.hpp>
+#include <tao/pegtl/contrib/limit_depth.hpp>
 #include <tao/pegtl/contrib/integer.hpp>
 #include <tao/pegtl/contrib/predicates.hpp>
 #include <tao/pegtl/contrib/raw_string.hpp>
@@ -72,7 +76,8 @@ namespace T
       G_POS = 1024,    // newline-capable atoms for the position oracle (C06)
       G_BOL = 2048,    // bol needs in.column(), which lazy inputs do not have
       G_ATOM3 = 4096,  // ascii convenience atoms (keyword identifier shebang two three forty_two ranges rep_string rep_one_min_max)
-      G_CONTRIB = 8192 // contrib: integer rules, raw_string, predicates, separated_seq, if_then
+      G_CONTRIB = 8192, // contrib: integer rules, raw_string, predicates, separated_seq, if_then
+      G_REMATCH = 16384 // rematch / minus construct a plain memory_input for the second phase
    };
 #ifndef VERIF_GROUPS
 #define VERIF_GROUPS ( T::G_CORE | T::G_HOLE )
@@ -365,6 +370,8 @@ namespace T
    // action control
    template< typename A > using w_enable = p::enable< A >;
    template< typename A > using w_disable = p::disable< A >;
+   struct LogState;
+   template< typename A > using w_state = p::state< LogState, A >;
    // clang-format on
 
    struct raise_msg : p::raise_message< 'r', 'm', 's', 'g' >
@@ -454,9 +461,9 @@ namespace T
    T3( LIST_MUST3, G_CONV3, w_list_must3 ) \
    B2( LIST_TAIL, G_CONV, w_list_tail ) \
    T3( LIST_TAIL3, G_CONV3, w_list_tail3 ) \
-   B2( MINUS, G_CONV, w_minus ) \
-   B2( REMATCH, G_CONV, w_rematch ) \
-   T3( REMATCH3, G_CONV3, w_rematch3 ) \
+   B2( MINUS, G_REMATCH, w_minus ) \
+   B2( REMATCH, G_REMATCH, w_rematch ) \
+   T3( REMATCH3, G_REMATCH, w_rematch3 ) \
    B2( PAD, G_CONV, w_pad ) \
    T3( PAD3, G_CONV3, w_pad3 ) \
    B2( PAD_OPT, G_CONV, w_pad_opt ) \
@@ -524,7 +531,8 @@ namespace T
    U1( TC_TYPE_RN, G_EXC, w_tc_type_rn ) \
    B2( TC_RF2, G_EXC, w_tc_rf2 ) \
    U1( ENABLE, G_ACT, w_enable ) \
-   U1( DISABLE, G_ACT, w_disable )
+   U1( DISABLE, G_ACT, w_disable ) \
+   U1( STATE, G_STATE, w_state )
 
    enum Op : uint8_t
    {
@@ -919,7 +927,8 @@ namespace T
       const char* begin;
       uint8_t A, M;
       size_t act_mark;
-      int child_A;  // apply mode the sub-rules must see: 0 nothing, 1 action, -1 inherited
+      int child_A;
+      size_t sw_mark = 0;  // apply mode the sub-rules must see: 0 nothing, 1 action, -1 inherited
    };
    inline bool op_is_lookahead( int op )
    {
@@ -936,6 +945,21 @@ namespace T
       }
       return -1;
    }
+   struct StEv
+   {
+      int what;  // 0 ctor 1 success 2 dtor
+      int id, pos, outer;
+   };
+   inline std::vector< StEv > st_log;
+   inline int st_next_id = 0;
+   struct SwAct
+   {
+      int rule, fam, b, e, state;
+   };
+   inline std::vector< SwAct > sw_acts;  // transactional like L.acts (truncated through Frame::sw_mark)
+   inline std::vector< std::array< int, 3 > > ctl_log;  // (control id, rule, pos) at every start hook of a table rule
+
+
    struct Log
    {
       std::vector< Ev > ev;
@@ -968,6 +992,7 @@ namespace T
    };
    inline Log L;
    inline uint8_t top_A = 1;  // apply mode requested at the parse() call (1 = action)
+   inline bool monitor_apply_mode = true;  // off where enable_action / disable_action attachments change the mode outside the rule structure
 
    // position oracle (the C06 formula): a function of the consumed prefix and the initial counters only
    struct PosF
@@ -1144,7 +1169,7 @@ namespace T
          const auto saved = in.inputerator();
          const char* const b = in.current();
          if( L.record_events ) L.ev.push_back( { E_ENTER, int16_t( rid< Rule >::v ), uint8_t( rid< Rule >::kind ), uint8_t( enable ), uint8_t( A == p::apply_mode::action ), uint8_t( M == p::rewind_mode::required ), int32_t( b - g_begin ), 0 } );
-         if( int( A == p::apply_mode::action ) != expected_A() ) {
+         if( monitor_apply_mode && int( A == p::apply_mode::action ) != expected_A() ) {
             ++L.c04;
             L.c04_msg = "apply_mode differs from the lexically expected one|" + rule_name< Rule >();
          }
@@ -1153,7 +1178,7 @@ namespace T
             L.c03_msg = "cursor beyond end on entry|" + rule_name< Rule >();
          }
          if( check_positions ) position_check( in, "entry", std::string( p::demangle< Rule >() ) );
-         L.frames.push_back( { rid< Rule >::v, rid< Rule >::kind, b, uint8_t( A == p::apply_mode::action ), uint8_t( M == p::rewind_mode::required ), L.acts.size(), child_mode( rid< Rule >::kind, rid< Rule >::v ) } );
+         L.frames.push_back( { rid< Rule >::v, rid< Rule >::kind, b, uint8_t( A == p::apply_mode::action ), uint8_t( M == p::rewind_mode::required ), L.acts.size(), child_mode( rid< Rule >::kind, rid< Rule >::v ), sw_acts.size() } );
          struct exit_guard
          {
             const In& in;
@@ -1180,6 +1205,7 @@ namespace T
          if( check_positions ) position_check( in, "exit", std::string( p::demangle< Rule >() ) );
          if( !r ) {
             L.acts.resize( fr.act_mark );  // whatever fired inside a failed attempt is not part of the derivation
+            sw_acts.resize( fr.sw_mark );
             if( M == p::rewind_mode::required ) {
                if( !same_iter< In >( in.inputerator(), saved ) ) {
                   ++L.c02;
@@ -1238,7 +1264,7 @@ namespace T
             ++L.c04;
             L.c04_msg = "action of n" + std::to_string( I ) + " invoked with apply_mode::nothing";
          }
-         if( expected_A( 1 ) != 1 ) {
+         if( monitor_apply_mode && expected_A( 1 ) != 1 ) {
             ++L.c04;
             L.c04_msg = "action of n" + std::to_string( I ) + " invoked inside look-ahead or a disabled section";
          }
@@ -1364,6 +1390,203 @@ namespace T
    struct act_boolmix< node< I > > : std::conditional_t< I % 2 == 0, act_bool< node< I > >, act_bool0< node< I > > >
    {};
 
+   // ------------------------------------------------------------------ attachments by rule id (families >= 8)
+   // One constexpr table drives both the action classes given to the implementation and the reference.
+   enum AKind
+   {
+      AK_NONE,
+      AK_APPLY,
+      AK_LIMIT_BYTES,
+      AK_CHECK_BYTES,
+      AK_LIMIT_DEPTH,
+      AK_CHANGE_STATE,
+      AK_CHANGE_STATES,
+      AK_CHANGE_ACTION,
+      AK_CHANGE_ACTION_AND_STATE,
+      AK_CHANGE_ACTION_AND_STATES,
+      AK_CHANGE_CONTROL,
+      AK_ENABLE_ACTION,
+      AK_DISABLE_ACTION
+   };
+   struct Attach
+   {
+      int kind, n;
+   };
+   constexpr int FAM_ALT = 15;  // the family switched to by change_action*: plain logging actions everywhere
+   constexpr Attach attach_of( int fam, int I )
+   {
+      switch( fam ) {
+         case 8: return I == 1 ? Attach{ AK_LIMIT_BYTES, 2 } : I == 2 ? Attach{ AK_CHECK_BYTES, 1 } : Attach{ AK_APPLY, 0 };
+         case 9: return I == 0 ? Attach{ AK_LIMIT_BYTES, 3 } : I == 2 ? Attach{ AK_LIMIT_BYTES, 1 } : Attach{ AK_NONE, 0 };
+         case 10: return Attach{ AK_LIMIT_DEPTH, 2 };
+         case 11: return I >= 1 ? Attach{ AK_LIMIT_DEPTH, 1 } : Attach{ AK_NONE, 0 };
+         case 12: return I == 0 ? Attach{ AK_APPLY, 0 } : I == 1 ? Attach{ AK_CHANGE_STATE, 0 } : I == 2 ? Attach{ AK_CHANGE_ACTION, 0 } : Attach{ AK_DISABLE_ACTION, 0 };
+         case 13: return I == 0 ? Attach{ AK_APPLY, 0 } : I == 1 ? Attach{ AK_CHANGE_STATES, 0 } : I == 2 ? Attach{ AK_CHANGE_ACTION_AND_STATE, 0 } : Attach{ AK_ENABLE_ACTION, 0 };
+         case 14: return I == 0 ? Attach{ AK_APPLY, 0 } : I == 1 ? Attach{ AK_CHANGE_CONTROL, 0 } : I == 2 ? Attach{ AK_CHANGE_ACTION_AND_STATES, 0 } : Attach{ AK_APPLY, 0 };
+         case FAM_ALT: return Attach{ AK_APPLY, 0 };
+      }
+      return Attach{ AK_NONE, 0 };
+   }
+
+   // logging state (C13)
+   struct LogState
+   {
+      int id;
+      template< typename In, typename... Outer >
+      static int outer_id( Outer&&... )
+      {
+         return -1;
+      }
+      static int first_id()
+      {
+         return -1;
+      }
+      template< typename... Rest >
+      static int first_id( const LogState& s, Rest&&... )
+      {
+         return s.id;
+      }
+      template< typename T, typename... Rest >
+      static int first_id( const T&, Rest&&... rest )
+      {
+         return first_id( rest... );
+      }
+      template< typename In, typename... Outer >
+      explicit LogState( const In& in, Outer&&... outer )
+         : id( st_next_id++ )
+      {
+         st_log.push_back( { 0, id, int( in.current() - g_begin ), first_id( outer... ) } );
+      }
+      LogState()
+         : id( st_next_id++ )
+      {
+         st_log.push_back( { 0, id, -1, -2 } );  // default constructed (change_states)
+      }
+      LogState( const LogState& ) = delete;
+      template< typename In, typename... Outer >
+      void success( const In& in, Outer&&... outer )
+      {
+         st_log.push_back( { 1, id, int( in.current() - g_begin ), first_id( outer... ) } );
+      }
+      ~LogState()
+      {
+         st_log.push_back( { 2, id, -1, -1 } );
+      }
+   };
+   template< int Fam, typename Rule >
+   struct sw_act;
+   template< int Fam, unsigned I, int Kind, int N >
+   struct sw_impl : p::nothing< node< I > >
+   {};
+   template< int Fam, unsigned I, int N >
+   struct sw_impl< Fam, I, AK_APPLY, N >
+   {
+      template< typename AI, typename... St >
+      static void apply( const AI& in, St&&... st )
+      {
+         on_action( int( I ), 1, &in );
+         sw_acts.push_back( { int( I ), Fam, int( in.begin() - g_begin ), int( in.end() - g_begin ), LogState::first_id( st... ) } );
+      }
+   };
+   template< int Fam, unsigned I, int N >
+   struct sw_impl< Fam, I, AK_LIMIT_BYTES, N > : p::limit_bytes< std::size_t( N ) >
+   {};
+   template< int Fam, unsigned I, int N >
+   struct sw_impl< Fam, I, AK_CHECK_BYTES, N > : p::check_bytes< std::size_t( N ) >
+   {};
+   template< int Fam, unsigned I, int N >
+   struct sw_impl< Fam, I, AK_LIMIT_DEPTH, N > : p::limit_depth< std::size_t( N ) >
+   {};
+   template< typename Rule >
+   struct fam_alt;
+   template< typename Rule >
+   struct mon2;
+   template< int Fam, unsigned I, int N >
+   struct sw_impl< Fam, I, AK_CHANGE_STATE, N > : p::change_state< LogState >
+   {};
+   template< int Fam, unsigned I, int N >
+   struct sw_impl< Fam, I, AK_CHANGE_STATES, N > : p::change_states< LogState >
+   {
+      template< typename In, typename... St >
+      static void success( const In& in, LogState& s, St&&... st )
+      {
+         s.success( in, st... );
+      }
+   };
+   template< int Fam, unsigned I, int N >
+   struct sw_impl< Fam, I, AK_CHANGE_ACTION, N > : p::change_action< fam_alt >
+   {};
+   template< int Fam, unsigned I, int N >
+   struct sw_impl< Fam, I, AK_CHANGE_ACTION_AND_STATE, N > : p::change_action_and_state< fam_alt, LogState >
+   {};
+   template< int Fam, unsigned I, int N >
+   struct sw_impl< Fam, I, AK_CHANGE_ACTION_AND_STATES, N > : p::change_action_and_states< fam_alt, LogState >
+   {
+      template< typename In, typename... St >
+      static void success( const In& in, LogState& s, St&&... st )
+      {
+         s.success( in, st... );
+      }
+   };
+   template< int Fam, unsigned I, int N >
+   struct sw_impl< Fam, I, AK_CHANGE_CONTROL, N > : p::change_control< mon2 >
+   {};
+   template< int Fam, unsigned I, int N >
+   struct sw_impl< Fam, I, AK_ENABLE_ACTION, N > : p::enable_action
+   {};
+   template< int Fam, unsigned I, int N >
+   struct sw_impl< Fam, I, AK_DISABLE_ACTION, N > : p::disable_action
+   {};
+
+   template< int Fam, typename Rule >
+   struct sw_act : p::nothing< Rule >
+   {};
+   template< int Fam, unsigned I >
+   struct sw_act< Fam, node< I > > : sw_impl< Fam, I, attach_of( Fam, int( I ) ).kind, attach_of( Fam, int( I ) ).n >
+   {};
+   // clang-format off
+   template< typename Rule > struct fam8 : sw_act< 8, Rule > {};
+   template< typename Rule > struct fam9 : sw_act< 9, Rule > {};
+   template< typename Rule > struct fam10 : sw_act< 10, Rule > {};
+   template< typename Rule > struct fam11 : sw_act< 11, Rule > {};
+   template< typename Rule > struct fam12 : sw_act< 12, Rule > {};
+   template< typename Rule > struct fam13 : sw_act< 13, Rule > {};
+   template< typename Rule > struct fam14 : sw_act< 14, Rule > {};
+   template< typename Rule > struct fam_alt : sw_act< FAM_ALT, Rule > {};
+   // clang-format on
+
+   // second control (C13 change_control): same monitor, tagged events
+   template< typename Rule >
+   struct mon2 : mon_base< Rule, true, false >
+   {
+      template< typename In, typename... St >
+      static void start( const In& in, St&&... )
+      {
+         if( rid< Rule >::kind == RK_NODE ) ctl_log.push_back( { 2, rid< Rule >::v, int( in.current() - g_begin ) } );
+         mon_base< Rule, true, false >::log( E_START, in );
+      }
+      template< typename In, typename... St >
+      static void unwind( const In& in, St&&... )
+      {
+         mon_base< Rule, true, false >::log( E_UNWIND, in );
+      }
+   };
+   template< typename Rule >
+   struct mon1 : mon_base< Rule, true, false >
+   {
+      template< typename In, typename... St >
+      static void start( const In& in, St&&... )
+      {
+         if( rid< Rule >::kind == RK_NODE ) ctl_log.push_back( { 1, rid< Rule >::v, int( in.current() - g_begin ) } );
+         mon_base< Rule, true, false >::log( E_START, in );
+      }
+      template< typename In, typename... St >
+      static void unwind( const In& in, St&&... )
+      {
+         mon_base< Rule, true, false >::log( E_UNWIND, in );
+      }
+   };
+
    // ------------------------------------------------------------------ running the implementation
    struct Real
    {
@@ -1426,6 +1649,10 @@ namespace T
       fuel_out = false;
       top_A = ( A == p::apply_mode::action );
       L.reset();
+      st_log.clear();
+      st_next_id = 0;
+      sw_acts.clear();
+      ctl_log.clear();
       try {
          const bool ok = p::parse< node< 0 >, Action, Control, A, M >( in, st... );
          r.kind = ok ? Real::OK : Real::FAILED;
